@@ -36,7 +36,7 @@ only = sys.argv[1:]
 rows = []
 for d in sorted(glob.glob(SEEDED + "/*/")):
     sid = os.path.basename(d.rstrip("/"))
-    if only and not any(sid.startswith(o) for o in only):
+    if only and not any(o in sid for o in only):
         continue
     if not os.path.exists(d + "meta.json"):
         continue
